@@ -795,12 +795,12 @@ def tr2angvec(T, unit='rad', check=False):
 
     v = base.vex(trlog(R))
 
-    if base.iszerovec(v):
+    if base.iszerovec(v, tol=100):
         theta = 0
         v = np.r_[0, 0, 0]
     else:
         theta = base.norm(v)
-        v = base.unitvec(v)
+        v = v / theta
 
     if unit == 'deg':
         theta *= 180 / math.pi
